@@ -1,10 +1,12 @@
 package simrt
 
 import (
+	"context"
 	"fmt"
 	"reflect"
 	"sort"
 	"sync"
+	"time"
 	"unsafe"
 )
 
@@ -429,3 +431,74 @@ func MapKeys[M ~map[K]V, K comparable, V any](m M, site string) []K {
 func Pre(site string) string { Yield(site); return site }
 
 func Post[T any](site string, v T) T { Yield(site); return v }
+
+// ---------------------------------------------------------------- callbacks run by the standard library
+
+// AfterFuncCtx replaces context.AfterFunc: the callback runs in a controlled task once ctx is
+// done (the standard library would run it in a goroutine of its own, outside the scheduler).
+func AfterFuncCtx(ctx context.Context, f func(), site string) (stop func() bool) {
+	if S == nil {
+		return context.AfterFunc(ctx, f)
+	}
+	stopCh := make(chan struct{})
+	var mu sync.Mutex
+	state := 0 // 0 pending, 1 started, 2 stopped
+	Go(site, func() {
+		sl := NewSelect(site)
+		SelRecv(sl, ctx.Done())
+		SelRecv(sl, (<-chan struct{})(stopCh))
+		if sl.Wait() != 0 {
+			return
+		}
+		mu.Lock()
+		if state != 0 {
+			mu.Unlock()
+			return
+		}
+		state = 1
+		mu.Unlock()
+		f()
+	})
+	return func() bool {
+		mu.Lock()
+		defer mu.Unlock()
+		if state != 0 {
+			return false
+		}
+		state = 2
+		close(stopCh)
+		return true
+	}
+}
+
+// AfterFuncTimer replaces time.AfterFunc for the same reason; the returned value offers Stop.
+type SimTimer struct{ stop func() bool }
+
+func (t *SimTimer) Stop() bool { return t.stop() }
+
+func AfterFuncTimer(d time.Duration, f func(), site string) *SimTimer {
+	ctx, cancel := context.WithCancel(context.Background())
+	fired := false
+	var mu sync.Mutex
+	Go(site, func() {
+		sl := NewSelect(site)
+		SelRecv(sl, time.After(d))
+		SelRecv(sl, ctx.Done())
+		if sl.Wait() != 0 {
+			return
+		}
+		mu.Lock()
+		fired = true
+		mu.Unlock()
+		f()
+	})
+	return &SimTimer{stop: func() bool {
+		mu.Lock()
+		defer mu.Unlock()
+		if fired || ctx.Err() != nil {
+			return false
+		}
+		cancel()
+		return true
+	}}
+}
